@@ -760,4 +760,44 @@ theorem rateTotalFor_eq [NumOps] (t : Total) (c : TaxTotals.Combo) (zero : Amoun
       simp only at hl
       rw [hl]
 
+/-! ## the closed forms read with the faithful operations = Model/Merge.lean -/
+
+theorem roundCatG_faithful (e : Nat) : @roundCatG faithfulOps e = Merge.roundCategory e := rfl
+
+theorem calcRate_fold (rr : String) (zero : Amount) (l : List RateTotal) (done : List RateTotal) (a : Amount) (s : Option Amount) :
+    l.foldl (Merge.calcRate (rr == "currency") zero) (done, a, s) =
+      (done ++ l.map (@rateAmountsG faithfulOps zero),
+        (l.foldl (@catAccG faithfulOps zero rr) (a, s)).1, (l.foldl (@catAccG faithfulOps zero rr) (a, s)).2) := by
+  induction l generalizing done a s with
+  | nil => simp
+  | cons x l ih =>
+    rcases x with ⟨k, cn, e, b, pc, su, am⟩
+    cases pc <;> cases su <;>
+      simp [Merge.calcRate, ih, rateAmountsG, catAccG, mrp_faithful, f_add, f_pctOf]
+
+theorem calcCatG_faithful (zero : Amount) (rr : String) (ct : CategoryTotal) :
+    @calcCatG faithfulOps zero rr ct = Merge.calcCategory (rr == "currency") zero ct := by
+  unfold Merge.calcCategory calcCatG
+  rw [calcRate_fold]; simp
+
+theorem sumStep_fold (rr : String) (zero : Amount) (l : List CategoryTotal) (done : List CategoryTotal) (a : Amount) :
+    l.foldl (Merge.calcSumStep (rr == "currency") zero) (done, a) =
+      (done ++ l.map (@calcCatG faithfulOps zero rr), (l.map (@calcCatG faithfulOps zero rr)).foldl (@sumAccG faithfulOps rr) a) := by
+  induction l generalizing done a with
+  | nil => simp
+  | cons x l ih =>
+    simp only [List.foldl_cons, List.map_cons, Merge.calcSumStep, ← calcCatG_faithful, ih]
+    generalize @calcCatG faithfulOps zero rr x = y
+    rcases y with ⟨cd, ret, rs, am, su, ap⟩
+    cases ret <;> cases su <;> simp [sumAccG, mrp_faithful, f_add, f_sub]
+
+/-- `calculateFinalSum` followed by `round` (the body of `Total.Calculate` after the nil test and the
+    zero of the currency), read with the faithful operations, is `Total.calculate` of Model/Merge.lean -/
+theorem Calculate_body_faithful (t : Total) (e : Nat) (rr : String) :
+    (@TaxTotalsSrc.Total_round faithfulOps (@TaxTotalsSrc.Total_calculateFinalSum faithfulOps t ⟨0, e⟩ rr).2 ⟨0, e⟩).2 =
+      t.calculate e (rr == "currency") := by
+  rw [@calcFinalSum_eq faithfulOps, @round_eq faithfulOps]
+  unfold Merge.Total.calculate
+  simp only [sumStep_fold, roundCatG_faithful, f_rescale, List.nil_append]
+
 end GoblVerif.Proofs.TaxTotalsSrc
